@@ -250,6 +250,13 @@ pub fn run(rep: &Report) -> serde_json::Value {
             for &e in &[2u8, 5, 8] { inputs.push(Input { family: "F9-header-slots", entry: e, bytes: b.clone(), inflated: 0, over_declared: false, depth: 0 }); }
             b = vec![131u8, 68, 2, (0x08 | seg) | ((0x08 | (7 - seg)) << 4), 0, idx, 1, b'a', 255 - idx, 1, b'b', 104, 2, 82, 0, 82, 1];
             for &e in &[2u8, 5, 8] { inputs.push(Input { family: "F9-header-slots", entry: e, bytes: b.clone(), inflated: 0, over_declared: false, depth: 0 }); }
+            // a reference to a slot nobody announced (fresh cache), alone and next to an announced one, used and unused
+            b = vec![131u8, 68, 1, seg, idx, 82, 0];
+            for &e in &[2u8, 5, 8] { inputs.push(Input { family: "F9-header-slots", entry: e, bytes: b.clone(), inflated: 0, over_declared: false, depth: 0 }); }
+            b = vec![131u8, 68, 1, seg, idx, 97, 1];
+            for &e in &[2u8, 5, 8] { inputs.push(Input { family: "F9-header-slots", entry: e, bytes: b.clone(), inflated: 0, over_declared: false, depth: 0 }); }
+            b = vec![131u8, 68, 2, (0x08 | seg) | ((7 - seg) << 4), 0, idx, 1, b'a', 255 - idx, 104, 2, 82, 0, 82, 1];
+            for &e in &[2u8, 5, 8] { inputs.push(Input { family: "F9-header-slots", entry: e, bytes: b.clone(), inflated: 0, over_declared: false, depth: 0 }); }
         }
     }
     let corp = c13::corpus(false);
